@@ -210,6 +210,7 @@ func scalarPayloads(fd protoreflect.FieldDescriptor, small bool) []Rec {
 			add("0", []byte{0})
 			add("max10", []byte{0xff, 0xff, 0xff, 0xff, 0xff, 0xff, 0xff, 0xff, 0xff, 0x01})
 			add("nonmin1", []byte{0x81, 0x80, 0x00})
+			add("overflow10", overflow10)
 			add("2^32", protowire.AppendVarint(nil, 1<<32))
 		}
 	case protowire.Fixed32Type:
@@ -329,6 +330,11 @@ func fieldRecs(fd protoreflect.FieldDescriptor, o WireOpt) []Rec {
 		if fd.IsList() && wt != protowire.BytesType {
 			ps := scalarPayloads(fd, true)
 			add("packed[2]", cat(tag(n, protowire.BytesType), lenPrefixed(cat(ps[0].B, ps[0].B))))
+			if wt == protowire.VarintType {
+				// a 10-byte element whose last byte overflows 64 bits is malformed wherever it sits
+				add("packed[1,overflow10]", cat(tag(n, protowire.BytesType), lenPrefixed(cat(ps[0].B, overflow10))))
+				add("packed[max10,1]", cat(tag(n, protowire.BytesType), lenPrefixed(cat(overflow10[:9], []byte{0x01, 0x01}))))
+			}
 			if !o.Small {
 				add("packed[]", cat(tag(n, protowire.BytesType), lenPrefixed(nil)))
 				add("packed[trunc]", cat(tag(n, protowire.BytesType), lenPrefixed(cat(ps[0].B, []byte{0x80}))))
@@ -364,6 +370,9 @@ func fieldRecs(fd protoreflect.FieldDescriptor, o WireOpt) []Rec {
 	}
 	return out
 }
+
+// overflow10 is a ten-byte varint whose last byte carries bits beyond 2^64.
+var overflow10 = []byte{0xff, 0xff, 0xff, 0xff, 0xff, 0xff, 0xff, 0xff, 0xff, 0x02}
 
 func firstPayload(fd protoreflect.FieldDescriptor) []byte {
 	switch wireTypeOf(fd.Kind()) {
